@@ -471,7 +471,7 @@ theorem locateKey_cases {c : Cache} {pd : PD} (hi : ConvInv c pd) {k : Bytes} {p
     (((searchByKey c.sorted k false = none) ∨ (∃ e, searchByKey c.sorted k false = some e ∧ e.valid = false)) ∧
         locateKey c pd k = ((insertRegionToCache c p.toEntry).1, .ok p.r)) ∨
     (∃ e, searchByKey c.sorted k false = some e ∧ e.valid = true ∧ e.reload = true ∧
-        locateKey c pd k = ((insertRegionToCache (c.update e.r.verID (fun x => { x with reload := false })) p.toEntry).1,
+        locateKey c pd k = ((insertRegionToCache (c.update e.r.verID (fun x => { x with reload := false, delayedOnly := false })) p.toEntry).1,
           .ok p.r)) ∨
     (∃ e, searchByKey c.sorted k false = some e ∧ e.valid = true ∧ e.reload = false ∧
         locateKey c pd k = (c, .ok e.r)) := by
@@ -566,9 +566,9 @@ theorem attempt_progress {c : Cache} {pd : PD} (hq0 : QuietPD pd) (hi : ConvInv 
     exact ⟨insert_convInv hq0 hi hpm rfl, Or.inl (insert_settles hq0 hi hp rfl rfl rfl),
       fun _ => insert_settles hq0 hi hp rfl rfl rfl⟩
   · -- reloaded because of the flag
-    have hi1 := update_convInv hi e.r.verID (fun x => { x with reload := false }) (fun _ => rfl)
+    have hi1 := update_convInv hi e.r.verID (fun x => { x with reload := false, delayedOnly := false }) (fun _ => rfl)
     have : attempt c pd k fb =
-        ((insertRegionToCache (c.update e.r.verID (fun x => { x with reload := false })) p.toEntry).1, true) := by
+        ((insertRegionToCache (c.update e.r.verID (fun x => { x with reload := false, delayedOnly := false })) p.toEntry).1, true) := by
       unfold attempt; rw [hloc, hp]; simp
     rw [this]
     exact ⟨insert_convInv hq0 hi1 hpm rfl, Or.inl (insert_settles hq0 hi1 hp rfl rfl rfl),
@@ -644,9 +644,9 @@ theorem attempt_settles_pending {c : Cache} {pd : PD} (hq0 : QuietPD pd) (hi : C
       unfold attempt; rw [hloc, hp]; simp
     rw [this]
     exact ⟨insert_convInv hq0 hi hpm rfl, insert_settles hq0 hi hp rfl rfl rfl, rfl⟩
-  · have hi1 := update_convInv hi e.r.verID (fun x => { x with reload := false }) (fun _ => rfl)
+  · have hi1 := update_convInv hi e.r.verID (fun x => { x with reload := false, delayedOnly := false }) (fun _ => rfl)
     have : attempt c pd k fb =
-        ((insertRegionToCache (c.update e.r.verID (fun x => { x with reload := false })) p.toEntry).1, true) := by
+        ((insertRegionToCache (c.update e.r.verID (fun x => { x with reload := false, delayedOnly := false })) p.toEntry).1, true) := by
       unfold attempt; rw [hloc, hp]; simp
     rw [this]
     exact ⟨insert_convInv hq0 hi1 hpm rfl, insert_settles hq0 hi1 hp rfl rfl rfl, rfl⟩
@@ -736,15 +736,15 @@ theorem attempt_keeps_settled {c : Cache} {pd : PD} (hq0 : QuietPD pd) (hi : Con
       unfold attempt; rw [hloc, hp']; simp
     rw [this]
     exact insert_keeps_settled hq0 hi hset hp'm rfl rfl rfl
-  · have hi1 := update_convInv hi e'.r.verID (fun x => { x with reload := false }) (fun _ => rfl)
-    have hs1 : Settled (c.update e'.r.verID (fun x => { x with reload := false })) pd k := by
-      apply update_keeps_settled hset e'.r.verID (fun x => { x with reload := false }) (fun _ => rfl)
+  · have hi1 := update_convInv hi e'.r.verID (fun x => { x with reload := false, delayedOnly := false }) (fun _ => rfl)
+    have hs1 : Settled (c.update e'.r.verID (fun x => { x with reload := false, delayedOnly := false })) pd k := by
+      apply update_keeps_settled hset e'.r.verID (fun x => { x with reload := false, delayedOnly := false }) (fun _ => rfl)
       intro e hse _
       obtain ⟨p, e0, _, hse0, _, hev, _⟩ := hset
       rw [hse] at hse0; cases hse0
       exact ⟨hev, rfl⟩
     have : attempt c pd k' fb =
-        ((insertRegionToCache (c.update e'.r.verID (fun x => { x with reload := false })) p'.toEntry).1, true) := by
+        ((insertRegionToCache (c.update e'.r.verID (fun x => { x with reload := false, delayedOnly := false })) p'.toEntry).1, true) := by
       unfold attempt; rw [hloc, hp']; simp
     rw [this]
     exact insert_keeps_settled hq0 hi1 hs1 hp'm rfl rfl rfl
